@@ -79,6 +79,26 @@ pub fn unwrap_from_document_fragment(view: View) -> View {
 
 /// Create a shallow copy of a view by converting the nodes to web-sys and then converting them
 /// back.
+/// Re-collect the nodes of a mounted `view` from the DOM: every node from its first to its last
+/// node.
+///
+/// The node list stored in a [`View`] goes stale when a dynamic view nested at its top level
+/// replaces the nodes between its markers; the first and the last node (markers, elements or
+/// text nodes) are never replaced.
+pub fn collect_live_nodes(view: View) -> View {
+    let nodes = view.as_web_sys();
+    let (Some(first), Some(last)) = (nodes.first(), nodes.last()) else {
+        return view;
+    };
+    if first == last || first.parent_node().is_none() || first.parent_node() != last.parent_node() {
+        return view;
+    }
+    let mut live = vec![first.clone()];
+    live.extend(get_nodes_between(first, last));
+    live.push(last.clone());
+    View::from_nodes(live.into_iter().map(HtmlNode::from_web_sys).collect())
+}
+
 pub fn clone_nodes_via_web_sys(view: &View) -> View {
     let nodes = view
         .as_web_sys()
